@@ -1284,6 +1284,12 @@ def build_operator_operand_fixup(capture_error_state):
                 if op != 'USub':
                     capture_error_state(True, f'Values: {left_op} {op} {right_op}')
                     return VALUE_ERROR
+            elif (op == 'Pow' and isinstance(left_op, (int, float)) and
+                  isinstance(right_op, (int, float)) and
+                  left_op < 0 and right_op % 1):
+                # no real result, python would return a complex number
+                capture_error_state(True, f'Values: {left_op} {op} {right_op}')
+                return NUM_ERROR
 
         if (op == 'Pow' and isinstance(left_op, int) and
                 isinstance(right_op, int) and
